@@ -21,6 +21,7 @@ type A struct {
 }
 
 //«s13»
+//«s19»
 type A2 struct {
 	//«s14»
 	named int
@@ -31,6 +32,11 @@ type (
 	B struct {
 		//«s6»
 		plain int
+	}
+	//«s15»
+	G struct {
+		//«s16»
+		cf int
 	}
 )
 
@@ -85,6 +91,7 @@ var c15bSites = []c15bSite{
 	{"s1", "type", "A"}, {"s2", "type", "B"}, {"s3", "func", "F"}, {"s4", "method", "M"},
 	{"s5", "field", "named"}, {"s6", "inert", ""}, {"s7", "inert", ""}, {"s8", "inert", ""}, {"s9", "inert", ""},
 	{"s10", "inert", ""}, {"s11", "inert", ""}, {"s12", "inert", ""}, {"s13", "type", "A2"}, {"s14", "field", "named"},
+	{"s15", "type", "G"}, {"s16", "field", "cf"}, {"s19", "type", "A2"},
 }
 
 // ZZC15bAttachment: a comment (any annotation keyword or near-miss) at any of 12 sites of a file, any two sites at a
@@ -161,36 +168,122 @@ func c15bAttachment(maxNonPlain int, only []string) {
 		return r
 	}
 	count := func(c bool) int { return nd.IteInt(c, 1, 0) }
-	// expected numbers of annotations of each kind
-	wantImm := count(is("s1", " @immutable")) + count(is("s2", " @immutable")) + count(is("s13", " @immutable"))
-	wantCtor := count(is("s1", " @constructor New, Make")) + count(is("s2", " @constructor New, Make")) + count(is("s13", " @constructor New, Make"))
-	wantImpl := count(is("s1", " @implements &pk.Iface")) + count(is("s2", " @implements &pk.Iface")) + count(is("s13", " @implements &pk.Iface"))
-	wantTest := count(is("s1", " @testonly")) + count(is("s2", " @testonly")) + count(is("s3", " @testonly")) + count(is("s4", " @testonly")) + count(is("s13", " @testonly"))
-	wantPkg := count(is("s1", " @packageonly w")) + count(is("s2", " @packageonly w")) + count(is("s3", " @packageonly w")) + count(is("s4", " @packageonly w")) + count(is("s13", " @packageonly w"))
-	// @mutable only on the named field of a struct whose own doc carries @immutable
-	wantMut := count(nd.And(is("s5", " @mutable"), is("s1", " @immutable"))) + count(nd.And(is("s6", " @mutable"), is("s2", " @immutable"))) + count(nd.And(is("s14", " @mutable"), is("s13", " @immutable")))
-	nd.Assert(len(ann.ImmutableAnnotations) == wantImm, "@immutable only as doc of a top-level type declaration")
-	nd.Assert(len(ann.ConstructorAnnotations) == wantCtor, "@constructor only as doc of a top-level type declaration")
-	nd.Assert(len(ann.ImplementsAnnotations) == wantImpl, "@implements only as doc of a top-level type declaration")
-	nd.Assert(len(ann.TestonlyAnnotations) == wantTest, "@testonly only as doc of a top-level type/func/method")
-	nd.Assert(len(ann.PackageOnlyAnnotations) == wantPkg, "@packageonly only as doc of a top-level type/func/method")
-	nd.Assert(len(ann.MutableAnnotations) == wantMut, "@mutable only as doc of a named field of an @immutable struct")
+	// G is a member of the type(...) group documented by s2 AND has its own doc s15: its own doc must take effect;
+	// whether the group's doc also reaches a member that has its own doc is not stated by the property (don't care),
+	// so annotations on G are counted separately: required when s15 says so, forbidden when neither s15 nor s2 does.
+	notC := func(names []string) int {
+		n := 0
+		for _, x := range names {
+			if x != "G" {
+				n++
+			}
+		}
+		return n
+	}
+	onC := func(names []string) int { return len(names) - notC(names) }
+	var immT, ctorT, implT, testT, pkgT, mutT []string
 	for _, a := range ann.ImmutableAnnotations {
-		nd.Assert(nd.Or(nd.And(a.OnType == "A", is("s1", " @immutable")), nd.And(a.OnType == "B", is("s2", " @immutable")), nd.And(a.OnType == "A2", is("s13", " @immutable"))), "@immutable attached to the documented type")
+		immT = append(immT, a.OnType)
 	}
 	for _, a := range ann.ConstructorAnnotations {
-		nd.Assert(nd.And(len(a.ConstructorNames) == 2, nd.Or(a.OnType == "A", a.OnType == "B", a.OnType == "A2")), "@constructor value")
+		ctorT = append(ctorT, a.OnType)
+	}
+	for _, a := range ann.ImplementsAnnotations {
+		implT = append(implT, a.OnType)
+	}
+	for _, a := range ann.TestonlyAnnotations {
+		testT = append(testT, a.ObjectName)
+	}
+	for _, a := range ann.PackageOnlyAnnotations {
+		pkgT = append(pkgT, a.ObjectName)
+	}
+	for _, a := range ann.MutableAnnotations {
+		mutT = append(mutT, a.OnType)
+	}
+	// A2 has a two-line doc (s13, s19): each line is recognised on its own
+	two := func(alt string) int { return count(is("s13", alt)) + count(is("s19", alt)) }
+	wantImm := count(is("s1", " @immutable")) + count(is("s2", " @immutable")) + two(" @immutable")
+	wantCtor := count(is("s1", " @constructor New, Make")) + count(is("s2", " @constructor New, Make")) + two(" @constructor New, Make")
+	wantImpl := count(is("s1", " @implements &pk.Iface")) + count(is("s2", " @implements &pk.Iface")) + two(" @implements &pk.Iface")
+	wantTest := count(is("s1", " @testonly")) + count(is("s2", " @testonly")) + count(is("s3", " @testonly")) + count(is("s4", " @testonly")) + two(" @testonly")
+	wantPkg := count(is("s1", " @packageonly w")) + count(is("s2", " @packageonly w")) + count(is("s3", " @packageonly w")) + count(is("s4", " @packageonly w")) + two(" @packageonly w")
+	a2Imm := nd.Or(is("s13", " @immutable"), is("s19", " @immutable"))
+	// @mutable only on the named field of a struct whose own doc carries @immutable
+	wantMut := count(nd.And(is("s5", " @mutable"), is("s1", " @immutable"))) + count(nd.And(is("s6", " @mutable"), is("s2", " @immutable"))) + count(nd.And(is("s14", " @mutable"), a2Imm))
+	nd.Assert(notC(immT) == wantImm, "@immutable only as doc of a top-level type declaration")
+	nd.Assert(notC(ctorT) == wantCtor, "@constructor only as doc of a top-level type declaration")
+	nd.Assert(notC(implT) == wantImpl, "@implements only as doc of a top-level type declaration")
+	nd.Assert(notC(testT) == wantTest, "@testonly only as doc of a top-level type/func/method")
+	nd.Assert(notC(pkgT) == wantPkg, "@packageonly only as doc of a top-level type/func/method")
+	nd.Assert(notC(mutT) == wantMut, "@mutable only as doc of a named field of an @immutable struct")
+	for _, k := range []struct {
+		alt string
+		got int
+	}{{" @immutable", onC(immT)}, {" @constructor New, Make", onC(ctorT)}, {" @implements &pk.Iface", onC(implT)}, {" @testonly", onC(testT)}, {" @packageonly w", onC(pkgT)}} {
+		nd.Assert(nd.Implies(is("s15", k.alt), k.got >= 1), "the own doc of a member of a type(...) group takes effect on that member")
+		nd.Assert(nd.Implies(nd.And(nd.Not(is("s15", k.alt)), nd.Not(is("s2", k.alt))), k.got == 0), "no annotation on a group member without an annotation line in its own or the group's doc")
+		nd.Assert(k.got <= 1, "at most one annotation of a kind on the group member")
+	}
+	nd.Assert(nd.Implies(nd.And(is("s16", " @mutable"), is("s15", " @immutable")), onC(mutT) == 1), "@mutable on the field of a group member that is @immutable by its own doc")
+	nd.Assert(nd.Implies(nd.Or(nd.Not(is("s16", " @mutable")), nd.And(nd.Not(is("s15", " @immutable")), nd.Not(is("s2", " @immutable")))), onC(mutT) == 0), "no @mutable on the group member's field otherwise")
+	for _, a := range ann.ImmutableAnnotations {
+		nd.Assert(nd.Or(nd.And(a.OnType == "A", is("s1", " @immutable")), nd.And(a.OnType == "B", is("s2", " @immutable")), nd.And(a.OnType == "A2", a2Imm), a.OnType == "G"), "@immutable attached to the documented type")
+	}
+	for _, a := range ann.ConstructorAnnotations {
+		nd.Assert(nd.And(len(a.ConstructorNames) == 2, nd.Or(a.OnType == "A", a.OnType == "B", a.OnType == "A2", a.OnType == "G")), "@constructor value")
 	}
 	for _, a := range ann.TestonlyAnnotations {
 		ok := nd.Or(
 			nd.And(a.Kind == annotations.TestOnlyOnType, a.ObjectName == "A", is("s1", " @testonly")),
 			nd.And(a.Kind == annotations.TestOnlyOnType, a.ObjectName == "B", is("s2", " @testonly")),
-			nd.And(a.Kind == annotations.TestOnlyOnType, a.ObjectName == "A2", is("s13", " @testonly")),
+			nd.And(a.Kind == annotations.TestOnlyOnType, a.ObjectName == "G"),
+			nd.And(a.Kind == annotations.TestOnlyOnType, a.ObjectName == "A2", nd.Or(is("s13", " @testonly"), is("s19", " @testonly"))),
 			nd.And(a.Kind == annotations.TestOnlyOnFunc, a.ObjectName == "F", is("s3", " @testonly")),
 			nd.And(a.Kind == annotations.TestOnlyOnMethod, a.ObjectName == "M", a.ReceiverType == "A", is("s4", " @testonly")))
 		nd.Assert(ok, "@testonly attached to the documented item with the right kind")
 	}
 	for _, a := range ann.MutableAnnotations {
-		nd.Assert(nd.Or(nd.And(a.OnType == "A", a.FieldName == "named"), nd.And(a.OnType == "B", a.FieldName == "plain"), nd.And(a.OnType == "A2", a.FieldName == "named")), "@mutable attached to the documented field")
+		nd.Assert(nd.Or(nd.And(a.OnType == "A", a.FieldName == "named"), nd.And(a.OnType == "B", a.FieldName == "plain"), nd.And(a.OnType == "A2", a.FieldName == "named"), nd.And(a.OnType == "G", a.FieldName == "cf")), "@mutable attached to the documented field")
 	}
+}
+
+const c15bIgnSrc = `package d
+
+//«i1»
+//«i2»
+//«i3»
+var V int
+
+func F() {
+	//«i4»
+	//«i5»
+	x := 1
+	_ = x //«i6»
+}
+`
+
+var c15bIgnAlts = []string{" @ignore CTOR01", " @ignore imm01, IMM02 because", " @ignore", " @ignored X", " plain"}
+
+// ZZC15bIgnoreLines: every line of a comment group is recognised on its own — the number of @ignore markers equals the
+// number of well-formed @ignore lines, whatever their neighbours in the same group are (six lines in three groups, all
+// symbolic at once).
+func ZZC15bIgnoreLines()  { c15bIgnoreLines(3) }
+func ZZC15bIgnoreLines6() { c15bIgnoreLines(6) }
+
+func c15bIgnoreLines(maxNonPlain int) {
+	names := []string{"i1", "i2", "i3", "i4", "i5", "i6"}
+	holes := []nd.Hole{}
+	want, nonPlain := 0, 0
+	for _, n := range names {
+		v := nd.EnumPad(n, c15bIgnAlts...)
+		holes = append(holes, nd.Hole{Name: n, Value: v})
+		want += nd.IteInt(nd.Or(nd.HasPrefix(v, " @ignore CTOR01"), nd.HasPrefix(v, " @ignore imm01, IMM02 because")), 1, 0)
+		nonPlain += nd.IteInt(nd.HasPrefix(v, " plain"), 0, 1)
+	}
+	nd.Assume(nonPlain <= maxNonPlain)
+	prog := nd.LoadProgram([]nd.File{{Pkg: "zzmod/d", Name: "d.go", Src: c15bIgnSrc}}, holes)
+	var raw []analysis.Diagnostic
+	pass := NewPass(prog, "zzmod/d", Facts{}, &raw)
+	ign := ignore.ReadIgnoreAnnotations(config.Default(), pass)
+	nd.Assert(ign.Len() == want, "one @ignore marker per well-formed @ignore line, independent of the other lines of its comment group")
 }
